@@ -7,7 +7,8 @@ pub struct ApplyG { pub kind: ApplyKind, pub key: Seq<u8>, pub value: Seq<u8>, p
 pub struct TreeG {
     pub applied: Seq<ApplyG>,           // memtable operations replayed so far, in order
     pub persisted: Option<u64>,         // highest seqno in the tree's tables
-    pub mem_max: Option<u64>,           // highest seqno in its memtables
+    pub mem_max: Option<u64>,           // highest seqno in its ACTIVE memtable
+    pub sealed_max: Option<u64>,        // highest seqno in its sealed (rotated, not yet flushed) memtables
 }
 pub struct World {
     pub trees: Map<u64, TreeG>,         // by keyspace id
@@ -17,7 +18,10 @@ pub struct World {
     pub recovering: bool,               // no other thread has a handle yet
     pub level_violations: Seq<(u64, u64)>,
     pub next_ks_id: u64,                // Database.keyspace_id_counter: the next internal keyspace id to hand out
+    pub queue: Seq<QItemG>,             // JournalManager: sealed journals awaiting eviction, oldest first
+    pub discarded: Seq<u64>,            // trees whose replayed active memtable was thrown away again (sealed-journal skip rule)
 }
+pub struct QItemG { pub path: int, pub wms: Seq<(u64, u64)> }   // (keyspace id of the handle, lsn)
 /// which registered keyspace a journaled id resolves to at replay time (C12: unknown ids are skipped)
 pub open spec fn resolve(w: World, id: u64) -> Option<u64> {
     if w.meta_names.dom().contains(id) && w.dict.dom().contains(w.meta_names[id]) { Some(w.dict[w.meta_names[id]]) } else { None }
@@ -151,7 +155,7 @@ impl MemtableH {
 pub open spec fn omax(a: Option<u64>, b: Option<u64>) -> Option<u64> {
     match (a, b) { (Some(x), Some(y)) => Some(if x > y { x } else { y }), (Some(x), None) => Some(x), (None, Some(y)) => Some(y), (None, None) => None }
 }
-pub open spec fn highest(t: TreeG) -> Option<u64> { omax(t.persisted, t.mem_max) }
+pub open spec fn highest(t: TreeG) -> Option<u64> { omax(omax(t.persisted, t.mem_max), t.sealed_max) }
 pub struct ClearResult { pub seqno: Ghost<u64>, pub ok: bool }
 impl ClearResult { pub fn ok(self) -> (r: Option<()>) { if self.ok { Some(()) } else { None } } }
 pub struct SequenceNumberCounter { pub is_visible: Ghost<bool> }
